@@ -233,5 +233,5 @@ def coq_arg(a, cname: str, as_col: bool) -> str:
     if t == "str":
         return f"(SStr {strlit(a['v'])})"
     if t == "lambda":
-        return "SLambda"
+        return f"(SLam {int(a['n'])})"
     raise ValueError(a)
